@@ -40,7 +40,8 @@ Inductive value :=
 | VTuple (vs : list value)
 | VList (loc : nat) | VMap (loc : nat)
 | VRange (lo hi : Z) (incl : bool)
-| VFn (clo : nat).
+| VFn (clo : nat)
+| VIter (loc : nat).   (* a generator: its remaining values live in the list heap at loc *)
 
 Definition env := list (id * value).
 
@@ -48,6 +49,7 @@ Record closure := mkclo {
   c_params : list (target * option value);  (* defaults are evaluated at creation *)
   c_variadic : option id;
   c_ret : option hint;
+  c_gen : bool;                              (* the body contains `yield` *)
   c_body : expr;
   c_env : env                                (* captured by copy at creation *)
 }.
@@ -217,6 +219,7 @@ Fixpoint veq (fuel : nat) (s : store) (a b : value) : option bool :=
                    end
                end) mx
       | VFn x, VFn y => Some (Nat.eqb x y)
+      | VIter x, VIter y => Some (Nat.eqb x y)
       | _, _ => Some false
       end
   end.
@@ -349,6 +352,7 @@ Definition ty_Tuple := b [84; 117; 112; 108; 101]%N.
 Definition ty_Map := b [77; 97; 112]%N.
 Definition ty_Range := b [82; 97; 110; 103; 101]%N.
 Definition ty_Function := b [70; 117; 110; 99; 116; 105; 111; 110]%N.
+Definition ty_Iterator := b [73; 116; 101; 114; 97; 116; 111; 114]%N.
 Definition ty_Callable := b [67; 97; 108; 108; 97; 98; 108; 101]%N.
 Definition ty_Indexable := b [73; 110; 100; 101; 120; 97; 98; 108; 101]%N.
 Definition ty_Iterable := b [73; 116; 101; 114; 97; 98; 108; 101]%N.
@@ -358,6 +362,7 @@ Definition type_name (v : value) : bytes :=
   | VNull => ty_Null | VBool _ => ty_Bool | VInt _ | VFlt _ => ty_Number | VStr _ => ty_String
   | VTuple _ => ty_Tuple | VList _ => ty_List | VMap _ => ty_Map | VRange _ _ _ => ty_Range
   | VFn _ => ty_Function
+  | VIter _ => ty_Iterator
   end.
 
 Definition hint_ok (h : hint) (v : value) : bool :=
@@ -368,7 +373,7 @@ Definition hint_ok (h : hint) (v : value) : bool :=
       bytes_eqb n ty_Any || bytes_eqb n (type_name v)
       || (bytes_eqb n ty_Callable && match v with VFn _ => true | _ => false end)
       || (bytes_eqb n ty_Indexable && match v with VList _ | VTuple _ | VStr _ | VMap _ | VRange _ _ _ => true | _ => false end)
-      || (bytes_eqb n ty_Iterable && match v with VList _ | VTuple _ | VStr _ | VMap _ | VRange _ _ _ => true | _ => false end)
+      || (bytes_eqb n ty_Iterable && match v with VList _ | VTuple _ | VStr _ | VMap _ | VRange _ _ _ | VIter _ => true | _ => false end)
   end.
 
 (* --------------------------------------------------------------- iteration *)
@@ -391,11 +396,16 @@ Definition iter_elems (s : store) (v : value) : option (list value) :=
   | VRange lo hi incl => range_elems lo hi incl
   | VMap m => Some (map (fun kv => VTuple [fst kv; snd kv]) (get_map s m))
   | VStr x => if is_ascii x && negb (existsb (N.eqb 13) x) then Some (map (fun c => VStr [c]) x) else None
+  | VIter l => Some (get_list s l)     (* the remaining values; the caller marks them consumed *)
   | _ => None
   end.
 
+(* consuming a generator's remaining values *)
+Definition consume_iter (s : store) (v : value) : store :=
+  match v with VIter l => set_list s l [] | _ => s end.
+
 Definition is_iterable (v : value) : bool :=
-  match v with VList _ | VTuple _ | VRange _ _ _ | VMap _ | VStr _ => true | _ => false end.
+  match v with VList _ | VTuple _ | VRange _ _ _ | VMap _ | VStr _ | VIter _ => true | _ => false end.
 
 (* hashable keys *)
 Fixpoint hashable (v : value) : bool :=
@@ -663,11 +673,13 @@ Definition cfg := (env * store)%type.
 
 (* eval: one fuel unit per node.  The environment is frame-wide (assignments in
    nested blocks persist), closures see their captured copy. *)
-Fixpoint eval (fuel : nat) (cenv : env) (e : env) (s : store) (x : expr) {struct fuel} : res * env * store :=
+Fixpoint eval (fuel : nat) (cenv : env) (yt : option nat) (e : env) (s : store) (x : expr) {struct fuel}
+  : res * env * store :=
+  (* yt: inside a generator body, the location of the list that collects the yielded values *)
   match fuel with
   | O => (RFuel, e, s)
   | S f =>
-      let ev := eval f cenv in
+      let ev := eval f cenv yt in
       (* evaluate a list left to right *)
       let evlist :=
         fix evlist (es : list expr) (e : env) (s : store) : (res + list value) * env * store :=
@@ -735,7 +747,20 @@ Fixpoint eval (fuel : nat) (cenv : env) (e : env) (s : store) (x : expr) {struct
                         | Some vx => update vx (VTuple (skipn np args)) fe
                         | None => fe
                         end in
-                      match eval f (c_env c) fe s (c_body c) with
+                      if c_gen c then
+                        (* a generator: in this reference the body is run to completion when the
+                           generator is created and its yielded values are collected in order; this
+                           equals lazy evaluation for bodies whose only effects are their yields
+                           (the generated programs keep to that) *)
+                        let '(s0, buf) := alloc_list s [] in
+                        let l := match buf with VList l => l | _ => O end in
+                        match eval f (c_env c) (Some l) fe s0 (c_body c) with
+                        | (RVal _, _, s1) | (RRet _, _, s1) => (RVal (VIter l), e, s1)
+                        | (RBreak _, _, s1) | (RCont, _, s1) => (RUnsup, e, s1)
+                        | (r, _, s1) => (r, e, s1)
+                        end
+                      else
+                      match eval f (c_env c) None fe s (c_body c) with
                       | (RVal v, _, s1) => (ret_check (c_ret c) v, e, s1)
                       | (RRet v, _, s1) => (ret_check (c_ret c) v, e, s1)
                       | (RBreak _, _, s1) | (RCont, _, s1) => (RUnsup, e, s1)
@@ -839,7 +864,7 @@ Fixpoint eval (fuel : nat) (cenv : env) (e : env) (s : store) (x : expr) {struct
               match ev e s rhs with
               | (RVal (VFn ci), e1, s1) =>
                   let s2 := match nth_error (clos s1) ci with
-                            | Some c => set_clo s1 ci (mkclo (c_params c) (c_variadic c) (c_ret c) (c_body c)
+                            | Some c => set_clo s1 ci (mkclo (c_params c) (c_variadic c) (c_ret c) (c_gen c) (c_body c)
                                                              (update y (VFn ci) (c_env c)))
                             | None => s1
                             end in
@@ -1037,10 +1062,10 @@ Fixpoint eval (fuel : nat) (cenv : env) (e : env) (s : store) (x : expr) {struct
              match n with
              | O => (RFuel, e, s)
              | S n' =>
-                 match eval n' cenv e s c with
+                 match eval n' cenv yt e s c with
                  | (RVal vc, e1, s1) =>
                      if Bool.eqb (truthy vc) want then
-                       match eval n' cenv e1 s1 b0 with
+                       match eval n' cenv yt e1 s1 b0 with
                        | (RVal _, e2, s2) | (RCont, e2, s2) => loop n' e2 s2
                        | (RBreak v, e2, s2) => (RVal v, e2, s2)
                        | other => other
@@ -1054,7 +1079,7 @@ Fixpoint eval (fuel : nat) (cenv : env) (e : env) (s : store) (x : expr) {struct
              match n with
              | O => (RFuel, e, s)
              | S n' =>
-                 match eval n' cenv e s b0 with
+                 match eval n' cenv yt e s b0 with
                  | (RVal _, e2, s2) | (RCont, e2, s2) => loop n' e2 s2
                  | (RBreak v, e2, s2) => (RVal v, e2, s2)
                  | other => other
@@ -1072,6 +1097,8 @@ Fixpoint eval (fuel : nat) (cenv : env) (e : env) (s : store) (x : expr) {struct
                      match elems with
                      | [] => (RVal last, e, s)
                      | v :: r =>
+                         (* a generator gives up one value per iteration: `break` leaves the rest *)
+                         let s := match vi with VIter l => set_list s l r | _ => s end in
                          let t := match ts with [t] => t | _ => TTuple ts end in
                          match bind_target DEPTH s t v e with
                          | BOk e1 =>
@@ -1103,7 +1130,7 @@ Fixpoint eval (fuel : nat) (cenv : env) (e : env) (s : store) (x : expr) {struct
              : res * env * store :=
              match ps with
              | [] =>
-                 let '(s1, ci) := alloc_clo s (mkclo (rev acc) variadic ret body visible) in
+                 let '(s1, ci) := alloc_clo s (mkclo (rev acc) variadic ret false body visible) in
                  (RVal (VFn ci), e, s1)
              | (t, None) :: r => go r ((t, None) :: acc) e s
              | (t, Some d) :: r =>
@@ -1112,6 +1139,54 @@ Fixpoint eval (fuel : nat) (cenv : env) (e : env) (s : store) (x : expr) {struct
                  | other => other
                  end
              end) ps [] e s
+      | EGenFn ps variadic body =>
+          let visible := e ++ cenv in
+          (fix go (ps : list (target * option expr)) (acc : list (target * option value)) (e : env) (s : store)
+             : res * env * store :=
+             match ps with
+             | [] =>
+                 let '(s1, ci) := alloc_clo s (mkclo (rev acc) variadic None true body visible) in
+                 (RVal (VFn ci), e, s1)
+             | (t, None) :: r => go r ((t, None) :: acc) e s
+             | (t, Some d) :: r =>
+                 match ev e s d with
+                 | (RVal v, e1, s1) => go r ((t, Some v) :: acc) e1 s1
+                 | other => other
+                 end
+             end) ps [] e s
+      | EYield a =>
+          match ev e s a with
+          | (RVal v, e1, s1) =>
+              match yt with
+              | Some l => (RVal VNull, e1, set_list s1 l (get_list s1 l ++ [v]))
+              | None => (RUnsup, e1, s1)
+              end
+          | other => other
+          end
+      | ENext a =>
+          match ev e s a with
+          | (RVal (VIter l), e1, s1) =>
+              match get_list s1 l with
+              | v :: r => (RVal v, e1, set_list s1 l r)
+              | [] => (RVal VNull, e1, s1)
+              end
+          | (RVal _, e1, s1) => (RUnsup, e1, s1)
+          | other => other
+          end
+      | EToTuple a | EToList a =>
+          match ev e s a with
+          | (RVal v, e1, s1) =>
+              match iter_elems s1 v with
+              | Some vs =>
+                  let s2 := consume_iter s1 v in
+                  match x with
+                  | EToTuple _ => (RVal (VTuple vs), e1, s2)
+                  | _ => let '(s3, w) := alloc_list s2 vs in (RVal w, e1, s3)
+                  end
+              | None => (RUnsup, e1, s1)
+              end
+          | other => other
+          end
       | ECall fx args =>
           match ev e s fx with
           | (RVal fv, e1, s1) =>
@@ -1345,7 +1420,7 @@ Fixpoint eval (fuel : nat) (cenv : env) (e : env) (s : store) (x : expr) {struct
 
 (* a whole script: the value of the last expression *)
 Definition run (fuel : nat) (p : expr) : res * store :=
-  let '(r, _, s) := eval fuel [] [] empty_store p in
+  let '(r, _, s) := eval fuel [] None [] empty_store p in
   match r with
   | RRet v => (RVal v, s)
   | _ => (r, s)
